@@ -504,3 +504,34 @@ def run(ctx):
         layer_correspondence(ctx, facts)
     run_diff(ctx)
     run_convert(ctx)
+
+
+def replay(ctx, path):
+    """./check C15 --replay replay/C15_<hash>.json : rebuild the recorded net (same VERIF_SEED / tier), save and load
+    it through the recorded path on the current tree and compare again"""
+    obj = json.load(open(path))
+    r = obj.get("replay", {})
+    if "net" not in r or "path" not in r:
+        ctx.broken("replay", "unsupported replay record", str(list(r)))
+        return
+    for name, net, info in test_nets(ctx):
+        if name != r["net"]:
+            continue
+        quant = r["path"] != "pickle"
+        ctx.case({"replay": path}, True)
+        try:
+            loaded = roundtrip(net, r["path"], ctx.scratch, "replay")
+        except Exception as e:  # noqa: BLE001
+            print("replay: %s via %s raises %s: %s" % (name, r["path"], type(e).__name__, str(e)[:200]))
+            ctx.violation(obj.get("signature", {}), "replayed: " + obj.get("what", ""), r)
+            return
+        diffs = compare_nets(net, loaded, quant)
+        for sig, what in diffs:
+            print("replay: " + what[:300])
+            ctx.violation(dict(sig, path="json" if r["path"].startswith("json") else r["path"], variant=r["path"]),
+                          "replayed: net %s via %s: %s" % (name, r["path"], what), r)
+        if not diffs:
+            print("replay: net %s via %s: no difference on the current tree (re-save / pipeflow clauses are "
+                  "re-evaluated by the full check)" % (name, r["path"]))
+        return
+    ctx.broken("replay", "net %s not produced with seed %d tier %s" % (r["net"], ctx.seed, ctx.tier), "")
